@@ -63,3 +63,30 @@ Theorem C04_written_rev_range : forall compress decompress c,
   collect (rev_range_next (cstep (load_block decompress (vs_bytes s) (m_codec m)) (m_root m) (m_levels m)) lo hi) fuel iter_new = Done (rev (range_spec es lo hi)).
 Proof. exact written_range_bwd. Qed.
 Print Assumptions C04_written_rev_range.
+
+(* ================= call by call ================= *)
+(* What C04_range / C04_rev_range say about the collected list holds for every single call: the first n
+   calls of next (n up to the number of in-range entries) return Some of the first n in-range entries, one
+   after the other, and the call after the last one returns None.  calls is the n-successive-calls function
+   of the fault theorems of C12. *)
+From Grenad.proofs Require Import IterFault IterCalls.
+
+Theorem C04_range_call_by_call : forall ld root levels bstore, wf_store ld root levels bstore ->
+  forall lo hi,
+  (forall n, (n <= length (range_spec (content root levels bstore) lo hi))%nat ->
+     exists it', calls (range_next (cstep ld root levels) lo hi) n iter_new
+                 = Done (it', map Some (firstn n (range_spec (content root levels bstore) lo hi)))) /\
+  (exists it', calls (range_next (cstep ld root levels) lo hi) (S (length (range_spec (content root levels bstore) lo hi))) iter_new
+               = Done (it', map Some (range_spec (content root levels bstore) lo hi) ++ [None])).
+Proof. exact range_calls. Qed.
+Print Assumptions C04_range_call_by_call.
+
+Theorem C04_rev_range_call_by_call : forall ld root levels bstore, wf_store ld root levels bstore ->
+  forall lo hi,
+  (forall n, (n <= length (rev (range_spec (content root levels bstore) lo hi)))%nat ->
+     exists it', calls (rev_range_next (cstep ld root levels) lo hi) n iter_new
+                 = Done (it', map Some (firstn n (rev (range_spec (content root levels bstore) lo hi))))) /\
+  (exists it', calls (rev_range_next (cstep ld root levels) lo hi) (S (length (rev (range_spec (content root levels bstore) lo hi)))) iter_new
+               = Done (it', map Some (rev (range_spec (content root levels bstore) lo hi)) ++ [None])).
+Proof. exact rev_range_calls. Qed.
+Print Assumptions C04_rev_range_call_by_call.
